@@ -113,7 +113,9 @@ class CachedPageAllocator : public PageAllocator {
 // 用于降低大并发下的竞争开销
 class BatchPageAllocator : public PageAllocator {
  public:
-  BatchPageAllocator() noexcept = default;
+  BatchPageAllocator() noexcept {
+    set_batch_size(_batch_size);
+  }
   BatchPageAllocator(BatchPageAllocator&&) noexcept = default;
   BatchPageAllocator(const BatchPageAllocator&) noexcept = delete;
   BatchPageAllocator& operator=(BatchPageAllocator&&) noexcept = default;
